@@ -1,0 +1,79 @@
+//go:build verif
+
+// Add-only verification hook for property C11, part 2b (stale held iterators,
+// coq/C11/ModelIt2.v).  Read-only access to the private AvlIterator inside the
+// iterator objects of the nine sparse vector types.
+package autodiff
+
+// VerifC11ItInfo is the private state of the AvlIterator embedded in a sparse
+// vector iterator.
+type VerifC11ItInfo struct {
+  Exhausted bool // node == nil
+  Deleted   bool // node.Deleted (tombstone)
+  NodeValue int  // node.Value
+  Value     int  // the iterator's own copy of the key
+  InTree    bool // node is the node found for NodeValue in the tree the iterator points to
+}
+
+func verifC11ItInfo(a *AvlIterator) VerifC11ItInfo {
+  r := VerifC11ItInfo{Value: a.value}
+  if a.node == nil {
+    r.Exhausted = true
+    return r
+  }
+  r.Deleted = a.node.Deleted
+  r.NodeValue = a.node.Value
+  if a.tree != nil {
+    r.InTree = a.tree.FindNode(a.node.Value) == a.node
+  }
+  return r
+}
+
+func verifC11ItAvl(it interface{}) *AvlIterator {
+  switch x := it.(type) {
+  case *SparseInt8VectorIterator:
+    return &x.AvlIterator
+  case *SparseInt16VectorIterator:
+    return &x.AvlIterator
+  case *SparseInt32VectorIterator:
+    return &x.AvlIterator
+  case *SparseInt64VectorIterator:
+    return &x.AvlIterator
+  case *SparseIntVectorIterator:
+    return &x.AvlIterator
+  case *SparseFloat32VectorIterator:
+    return &x.AvlIterator
+  case *SparseFloat64VectorIterator:
+    return &x.AvlIterator
+  case *SparseReal32VectorIterator:
+    return &x.AvlIterator
+  case *SparseReal64VectorIterator:
+    return &x.AvlIterator
+  }
+  return nil
+}
+
+// VerifC11ItState returns the private state of the AvlIterator inside it; ok is
+// false when it is not an iterator of one of the nine sparse vector types.
+func VerifC11ItState(it interface{}) (info VerifC11ItInfo, ok bool) {
+  a := verifC11ItAvl(it)
+  if a == nil {
+    return VerifC11ItInfo{}, false
+  }
+  return verifC11ItInfo(a), true
+}
+
+// VerifC11ItValid reports the condition under which AvlIterator.Next() follows
+// the links of the node it holds instead of re-finding its key in the tree:
+// node != nil && !node.Deleted && node.Value == value.  An exhausted iterator
+// (node == nil, Next is a no-op) reports true.
+func VerifC11ItValid(it interface{}) (valid bool, ok bool) {
+  a := verifC11ItAvl(it)
+  if a == nil {
+    return false, false
+  }
+  if a.node == nil {
+    return true, true
+  }
+  return !a.node.Deleted && a.node.Value == a.value, true
+}
